@@ -116,6 +116,67 @@ func c17GuidStructures(c *Ctx, cs Case, g util.EFIGUID, wantBE, wantWire []byte,
 			}
 		}
 	})
+	// the same decoders behind readers that hand out LESS than is asked for. The structure decoders take an
+	// io.Reader, and one Read call may return fewer bytes than the 16 of a GUID without that being an error or the
+	// end (a pipe, a network stream, a decompressor, a bufio.Reader at its buffer boundary): "inside encoded
+	// structures a GUID is Data1, Data2, Data3 little-endian followed by Data4" holds for the 16 bytes of the
+	// structure however the reader cuts them up - the same GUID back, the fields behind it intact, and exactly the
+	// bytes of the structure consumed.
+	guard("structures behind short-read readers", func() {
+		body := []byte{1, 2, 3, 4}
+		tail := []byte{0xc3, 0x3c, 0x99}
+		sigData := cat(wantWire, data)
+		sigList := cat(tSHA256, le32(28+2*48), le32(0), le32(48), wantWire, data, wireGUID(signature.CERT_X509_GUID), data)
+		support := cat(wantWire, tSHA256, wantWire)
+		cert := cat(le32(24+4), []byte{0x00, 0x02, 0xf1, 0x0e}, wantWire, body)
+		desc := cat(bytes.Repeat([]byte{0x07}, 16), cert)
+		for _, kind := range []string{"one-byte", "half", "data-err", "bytes.Buffer"} {
+			c.Class("guid-structures/reader=" + kind)
+			in := func(b []byte) *srcReader { return newSrcReader(kind, cat(b, tail)) }
+			left := func(r *srcReader, what string) {
+				if r.clobber(); r.rest != len(tail) {
+					fail(fmt.Sprintf("%s through a %s reader does not consume exactly the bytes of the structure", what, kind), fmt.Sprintf("%d bytes left", r.rest), fmt.Sprintf("%d bytes left", len(tail)))
+				}
+			}
+			r := in(sigData)
+			if back, err := signature.ReadSignatureData(r.r, 48); err != nil || back == nil || back.Owner != g || !bytes.Equal(back.Data, data) {
+				o := util.EFIGUID{}
+				if back != nil {
+					o = back.Owner
+				}
+				fail("ReadSignatureData through a "+kind+" reader does not return the owner GUID (Data1, Data2, Data3 little-endian, then Data4) and the data that are encoded", fmt.Sprint(err, " ", guidStr(o)), guidStr(g))
+			} else {
+				left(r, "ReadSignatureData")
+			}
+			r = in(sigList)
+			if rl, err := signature.ReadSignatureList(r.r); err != nil || rl == nil || rl.SignatureType != signature.CERT_SHA256_GUID || len(rl.Signatures) != 2 ||
+				rl.Signatures[0].Owner != g || rl.Signatures[1].Owner != signature.CERT_X509_GUID || !bytes.Equal(rl.Signatures[0].Data, data) || !bytes.Equal(rl.Signatures[1].Data, data) {
+				got := fmt.Sprint(err)
+				if err == nil && rl != nil {
+					got = goListStr(rl)
+				}
+				fail("ReadSignatureList through a "+kind+" reader does not return the type GUID and the owner GUIDs that are encoded", clip(got), "type "+hx(tSHA256)+", owners "+hx(wantWire)+" and "+hx(wireGUID(signature.CERT_X509_GUID)))
+			} else {
+				left(r, "ReadSignatureList")
+			}
+			r = newSrcReader(kind, support) // reads to the end of its input
+			if gs, err := signature.GetSupportedSignatures(r.r); err != nil || len(gs) != 3 || gs[0] != g || gs[1] != signature.CERT_SHA256_GUID || gs[2] != g {
+				fail("GetSupportedSignatures through a "+kind+" reader does not return the GUIDs that are encoded", fmt.Sprint(err, " ", len(gs)), guidStr(g))
+			}
+			r = in(cert)
+			if back, err := signature.ReadWinCertificateUEFIGUID(r.r); err != nil || back.CertType != g || !bytes.Equal(back.CertData, body) {
+				fail("ReadWinCertificateUEFIGUID through a "+kind+" reader does not return the CertType GUID and the data that are encoded", fmt.Sprint(err, " ", guidStr(back.CertType)), guidStr(g))
+			} else {
+				left(r, "ReadWinCertificateUEFIGUID")
+			}
+			r = in(desc)
+			if back, err := signature.ReadEFIVariableAuthencation2(r.r); err != nil || back == nil || back.AuthInfo.CertType != g || !bytes.Equal(back.AuthInfo.CertData, body) {
+				fail("ReadEFIVariableAuthencation2 through a "+kind+" reader does not return the CertType GUID and the data that are encoded", fmt.Sprint(err), guidStr(g))
+			} else {
+				left(r, "ReadEFIVariableAuthencation2")
+			}
+		}
+	})
 	guard("variable file name", func() {
 		text := canonGUIDText(g) // put together from the fields, not by the library
 		mem := afero.NewMemMapFs()
@@ -694,7 +755,7 @@ func c17Gen(c *Ctx) {
 
 func init() {
 	register("C17", &PropDef{
-		Rule:   "GUIDs: boundary patterns (each field 0/1/all-ones/single bits, a zero nibble at every text position) then random 128-bit values; strings: edge code points, BOM, transformer-buffer-straddling lengths, then random NUL-free scalar sequences; arbitrary texts and byte strings for the decoders. Every GUID / string case is a two-step sequence: the results of the first conversions are held while two other GUIDs (the complement and a rotation) / three other strings go through every conversion twice, must then still have their value, are then overwritten by the caller, and the same conversions are repeated and must return what they returned first. Every GUID also goes through the other spellings of the byte form (g.Bytes, WriteGUID into a non-empty buffer), through the library's structure encoders and decoders against bytes put together from the statement (SignatureData owner, SignatureList type and owner, the SignatureSupport array, the CertType of WIN_CERTIFICATE_UEFI_GUID alone and inside an authentication descriptor: little-endian Data1..3 then Data4 out, the same GUID back), and through the variable file name (a file stored under <name>-<canonical text> is the one FSWrapper.Read/WriteEfivarsWithGuid and attributes.Read/WriteEfivarsWithGuid read and write). Every string shorter than 200 bytes is also decoded by Efistring.Unmarshal without a tail, delimited by ReadNullString through three reader kinds (the encoding comes back, the tail stays unread) and read back from a store whose LoaderEntrySelected variable holds its encoding (Efivarfs.GetLoaderEntrySelected, efi.GetCurrentlyBootedEntry); every arbitrary byte string is also handed to those two getters (no terminator: an error) and to ReadNullString (the input up to and including its first terminator code unit, all of it when there is none). A case is non-trivial if it is not the all-zero GUID / the empty string; distinct = distinct case encodings.",
+		Rule:   "GUIDs: boundary patterns (each field 0/1/all-ones/single bits, a zero nibble at every text position) then random 128-bit values; strings: edge code points, BOM, transformer-buffer-straddling lengths, then random NUL-free scalar sequences; arbitrary texts and byte strings for the decoders. Every GUID / string case is a two-step sequence: the results of the first conversions are held while two other GUIDs (the complement and a rotation) / three other strings go through every conversion twice, must then still have their value, are then overwritten by the caller, and the same conversions are repeated and must return what they returned first. Every GUID also goes through the other spellings of the byte form (g.Bytes, WriteGUID into a non-empty buffer), through the library's structure encoders and decoders against bytes put together from the statement (SignatureData owner, SignatureList type and owner, the SignatureSupport array, the CertType of WIN_CERTIFICATE_UEFI_GUID alone and inside an authentication descriptor: little-endian Data1..3 then Data4 out, the same GUID back), through the same structure decoders (ReadSignatureData, ReadSignatureList with the GUID as the owner of the first of two entries, GetSupportedSignatures, ReadWinCertificateUEFIGUID, ReadEFIVariableAuthencation2) BEHIND READERS THAT HAND OUT LESS THAN IS ASKED FOR - one byte per Read, half of the request, the last data together with io.EOF, and a bytes.Buffer - with three unrelated bytes following the structure (the same GUID and the fields behind it back, exactly the structure's bytes consumed: the 16 bytes of a GUID are the GUID however the reader cuts them up), and through the variable file name (a file stored under <name>-<canonical text> is the one FSWrapper.Read/WriteEfivarsWithGuid and attributes.Read/WriteEfivarsWithGuid read and write). Every string shorter than 200 bytes is also decoded by Efistring.Unmarshal without a tail, delimited by ReadNullString through three reader kinds (the encoding comes back, the tail stays unread) and read back from a store whose LoaderEntrySelected variable holds its encoding (Efivarfs.GetLoaderEntrySelected, efi.GetCurrentlyBootedEntry); every arbitrary byte string is also handed to those two getters (no terminator: an error) and to ReadNullString (the input up to and including its first terminator code unit, all of it when there is none). A case is non-trivial if it is not the all-zero GUID / the empty string; distinct = distinct case encodings.",
 		Assume: []string{"Go strings handed to MarshalUtf16Var are valid UTF-8 (the property quantifies over valid Unicode strings)"},
 		Eval:   c17Eval,
 		Gen:    c17Gen,
